@@ -52,6 +52,7 @@ impl Prop for C02 {
             "clean_message_after_corrupted_predecessor",
             "clean_message_after_failed_predecessor",
             "anonymous_default_leaf",
+            "macro_built_tree",
         ];
         v.into_iter().map(String::from).collect()
     }
@@ -68,7 +69,15 @@ impl Prop for C02 {
         let depth = if deep { 6 } else { *trng.pick(&[2usize, 3, 4]) };
         let fan = if deep { 6 } else { *trng.pick(&[2usize, 3, 5]) };
         let commons = trng.usize_below(4);
-        let tree = gen_tree(&mut trng, false, depth, fan, commons);
+        let mut tree = gen_tree(&mut trng, false, depth, fan, commons);
+        if !deep && (run / 16) % 10 == 9 {
+            // a tree built at compile time with the crate's Root!/Branch!/Leaf! macros
+            tree = TreeDesc {
+                mandated: false,
+                app: vec![],
+                fixed: Some("macro".to_string()),
+            };
+        }
         let controllers = *rng.pick(&[1u8, 1, 2, 3]);
         let cfg = Config {
             queue: QueueCfg::Vec,
@@ -275,6 +284,9 @@ impl StepHandler for H02 {
                 }
             }
         }
+        if world.cfg.tree.fixed.is_some() {
+            stats.probe("macro_built_tree");
+        }
         for u in &s.msg.units {
             if u.path.iter().any(|p| p.is_empty()) {
                 stats.probe("anonymous_default_leaf");
@@ -316,6 +328,9 @@ impl StepHandler for H02 {
 }
 
 fn anon_leaf(t: &TreeDesc, h: usize) -> bool {
+    if t.fixed.is_some() {
+        return h == 1 || h == 5;
+    }
     fn rec(n: &TNode, h: usize) -> bool {
         match n {
             TNode::Leaf { name, h: x, .. } => *x == h && name.is_empty(),
